@@ -4,6 +4,7 @@ from .kea import Interp, Unknown, Byte, mem_byte, EMPTY
 from .ir import strip_casts
 
 P = 16          # largest unroll period of any kernel (bytes)
+GF_KINDS = ('gf',)    # the Reed-Solomon symbol kernels
 XOR_KINDS = ('xor1', 'xor-from', 'xor-to')     # the kernels the linear-binary codecs and the dense solver use
 
 KERNELS = [
